@@ -1,0 +1,42 @@
+//go:build verif
+
+// Contracts for contract-based deductive verification (govc, /verif).
+// This file contains comments only; it adds no code to the package.
+
+package traffic
+
+//@ opaque github.com/gauss-project/aurorafs/pkg/boson.Address as Addr
+
+//@ # the address book as a partial function peer -> chain address
+//@ spec func registered(book int, peer boson.Address) common.Address
+//@ spec func isRegistered(book int, peer boson.Address) bool
+
+//@ func (Addressbook).Beneficiary
+//@   trusted
+//@   ensures beneficiary == registered(ref(self), peer) && known == isRegistered(ref(self), peer)
+//@   assigns nothing
+
+//@ # the cheque store is verified in its own package (pkg/settlement/traffic/cheque);
+//@ # seen from here it touches only its own state store and leaves the cheque unmodified
+//@ extern func (github.com/gauss-project/aurorafs/pkg/settlement/traffic/cheque.ChequeStore).ReceiveCheque
+//@   assigns nothing
+
+//@ func (*Service).Address
+//@   inline
+//@ func (*Service).getTraffic
+//@   inline
+//@ func newTraffic
+//@   inline
+
+//@ # per-issuer traffic record
+//@ spec func trafficOf(s *Service, a common.Address) *Traffic = s.trafficPeers.trafficPeers[pure("(github.com/ethereum/go-ethereum/common.Address).String", a)]
+
+//@ func (*Service).ReceiveCheque
+//@   property C30
+//@   requires s.addressBook != nil && s.chequeStore != nil && cheque != nil && s.trafficPeers.trafficPeers != nil
+//@   requires forall k string :: present(s.trafficPeers.trafficPeers, k) ==> s.trafficPeers.trafficPeers[k] != nil
+//@   ensures unknown-peer-rejected: !isRegistered(ref(s.addressBook), peer) ==> result != nil
+//@   ensures only-registered-issuer: result == nil ==> cheque.Cheque.Beneficiary == registered(ref(s.addressBook), peer)
+//@   ensures only-addressed-to-us: result == nil ==> cheque.Cheque.Recipient == s.chainAddress
+//@   ensures credited-to-issuer: result == nil ==> trafficOf(s, registered(ref(s.addressBook), peer)) != nil && trafficOf(s, registered(ref(s.addressBook), peer)).transferChequeTraffic == cheque.Cheque.CumulativePayout
+//@   callassert ChequeStore.ReceiveCheque from-registered-issuer: cheque.Cheque.Beneficiary == chainAddress && cheque.Cheque.Recipient == s.chainAddress
